@@ -238,6 +238,10 @@ def plan(seed, table, matrix, quick, pool):
         vn, vt = rng.choice(vs)
         cases.append({'mode': 'all' if rng.random() < 0.75 else 'strict', 'text': vt, 'cat': k + ':' + vn, 'kind': k})
 
+    # boundary family: multi-byte text on the first / last line of wrapped fragments x what follows the last element
+    for m, text, cat in fr.boundary_cases(rng, quick, set(table) | set(GUESSING)):
+        cases.append({'mode': m, 'text': text, 'cat': cat, 'kind': ''})
+
     # wrapper escapes generated from each mode's own embedding delimiters
     for m in named:
         row = table[m]
